@@ -30,22 +30,23 @@ type BoolV struct {
 	C *bool
 }
 type StrV struct {
-	T string
-	C *string
+	T     string
+	C     *string
 	Parts []*StrV // when the value is a concatenation: its operands in order
+	Args  []Value // when the value is the result of a formatting stub: the arguments formatted
 }
 type StructV struct{ F []Value }
 type ArrayV struct{ E []Value }
 
 type Obj struct {
-	ID   int
+	ID int
 	// StrOrigin: the array was created by []byte(s) for this string and has
 	// not been written since (string(b) then gives s back).
 	StrOrigin *StrV
-	V    Value
-	Born int    // allocation sequence number on this path
-	Tag  string // "", "global:<name>", "input:<name>", "lazy:<name>"
-	Name string
+	V         Value
+	Born      int    // allocation sequence number on this path
+	Tag       string // "", "global:<name>", "input:<name>", "lazy:<name>"
+	Name      string
 }
 type PtrV struct {
 	O    *Obj
